@@ -149,6 +149,10 @@ def exercise(ctx, rng, n, basis, udict_t, states_by_kind, tags, pass_unitaries=F
     sp = torch.tensor(R.space(n), dtype=torch.double)
     N = 2 ** n
     kw = {"unitaries": udict_t} if pass_unitaries else {}
+    # the basis may be handed over as a string, a list of letters or a numpy row of letters (what NLL / gradient pass on)
+    form = int(rng.integers(0, 3))
+    basis = [basis, list(basis), np.array(list(basis))][form]
+    ctx.seen("basis_argument_forms", ["str", "list", "ndarray"][form])
     for kind, st in states_by_kind.items():
         bl = batches(rng, n)
         if kind != "mixed":
